@@ -281,6 +281,17 @@ class Session:
             self._check_ota(got, exp, inbound)
             return
         want = list(exp.sent)
+        if exp.id_request:
+            # an id response may be broadcast instead of addressed to the requester; if the requester
+            # sleeps the model withheld it - accept the broadcast and take it out of the hold queue
+            for g in got:
+                if g[2] == T.INTERNAL and g[4] == 4 and g[0] == T.BROADCAST and not any(same_command(g, w) for w in want):
+                    for node in model.nodes.values():
+                        hit = [h for h in node.hold if h[2] == T.INTERNAL and h[4] == 4 and h[5] == g[5]]
+                        if hit:
+                            node.hold.remove(hit[0])
+                            want.append(hit[0])
+                            break
         if len(got) != len(want):
             self._reply_mismatch(got, want, exp, sleeping_before, inbound)
         fixed = len(want) - exp.free_tail
